@@ -609,6 +609,73 @@ def r19j(ctx: Context) -> None:
             rule.fail(key, where(mutation[0], mutation[1]), f"'{name}' is created once, changed while one argument is expanded ({mutation[0].short}: '{norm(mutation[1])[:60]}') and consulted for the next: the selection depends on which arguments came before")
 
 
+def r19k(ctx: Context) -> None:
+    """'However many arguments reach it, in any order': whether an argument counts as an error is a matter of that
+    argument alone.  A decision that reads the set of files selected so far (its size, its contents) makes the
+    verdict on one argument depend on the arguments before it - a glob whose files an earlier argument already
+    selected 'adds nothing'."""
+    prog = ctx.prog
+    rule = ctx.rule("R19k", "no error decision of discovery reads the set of files selected so far", 2)
+    root_func, root_set = discovery_set(prog)
+    carriers = forward_taint(prog, [(root_func, root_set)], any_expression=False)
+    _disc, flag, raising_ids = common.discovery_error_flag(prog)
+    scanner = prog.cls(AFS)
+    for qual, names in sorted(carriers.items()):
+        func = prog.functions[qual]
+        if func.cls != scanner:
+            continue
+        derived: Set[str] = set(names)
+
+        def reads_selection(expr: ast.AST) -> bool:
+            """the value of ``expr`` depends on what the set holds (not: the set is handed to a helper that fills it)"""
+            for sub in ast.walk(expr):
+                if isinstance(sub, ast.Name) and sub.id in derived and sub.id not in names:
+                    return True
+                if isinstance(sub, ast.Compare) and any(isinstance(side, ast.Name) and side.id in names for side in [sub.left] + list(sub.comparators)):
+                    return True
+                if isinstance(sub, ast.BinOp) and any(isinstance(side, ast.Name) and side.id in names for side in (sub.left, sub.right)):
+                    return True
+                if isinstance(sub, ast.Call):
+                    site = site_for(prog, func, sub)
+                    builtin = site is not None and not site.targets and (site.external or "").startswith("builtins.")
+                    if builtin and any(isinstance(a, ast.Name) and a.id in names for a in sub.args):
+                        return True
+                    if isinstance(sub.func, ast.Attribute) and isinstance(sub.func.value, ast.Name) and sub.func.value.id in names and sub.func.attr not in ("add", "update", "discard", "remove", "clear"):
+                        return True
+                if isinstance(sub, (ast.UnaryOp,)) and isinstance(sub.op, ast.Not) and isinstance(sub.operand, ast.Name) and sub.operand.id in names:
+                    return True
+            return False
+
+        changed = True
+        while changed:
+            changed = False
+            for node in walk_local(func.node):
+                if isinstance(node, (ast.Assign, ast.AnnAssign)) and getattr(node, "value", None) is not None and reads_selection(node.value):
+                    targets = node.targets if isinstance(node, ast.Assign) else [node.target]
+                    for target in targets:
+                        for sub in ast.walk(target):
+                            if isinstance(sub, ast.Name) and sub.id not in derived:
+                                derived.add(sub.id)
+                                changed = True
+        verdicts: List[Tuple[ast.AST, str]] = []
+        for node in walk_local(func.node):
+            if isinstance(node, (ast.Assign, ast.AnnAssign)) and getattr(node, "value", None) is not None and id(node.value) in raising_ids:
+                verdicts.append((node, f"'{flag}' is raised"))
+            elif isinstance(node, ast.Return) and func != root_func and isinstance(node.value, ast.Constant) and node.value.value is False:
+                verdicts.append((node, "the helper answers 'not usable'"))
+            elif isinstance(node, ast.Call):
+                site = site_for(prog, func, node)
+                if site is not None and isinstance(node.func, ast.Name) and node.func.id in func.params and "error" in node.func.id:
+                    verdicts.append((node, "an error is reported"))
+        for node, what in verdicts:
+            key = func_key(func, node) + " [own argument only]"
+            bad = [test for test, _pol in guards_of(func.node, node, include_asserts=False) if reads_selection(test) or (isinstance(test, ast.Name) and test.id in names)]
+            if bad:
+                rule.fail(key, where(func, node), f"{what} under '{norm(bad[0])[:80]}', which reads the set of files selected so far: whether this argument is an error depends on the arguments that came before it (a file or glob that adds nothing new is reported as unusable)")
+            else:
+                rule.ok(key, f"{what} on the argument's own outcome")
+
+
 def run(ctx: Context) -> None:
     r19a(ctx)
     r19b(ctx)
@@ -621,3 +688,4 @@ def run(ctx: Context) -> None:
     r19h(ctx)
     r19i(ctx)
     r19j(ctx)
+    r19k(ctx)
